@@ -44,7 +44,24 @@ def dict_shapes():
 
 EFFECTS = ("leave", "add-or-rebind", "rebind-to-another-object", "rebind-to-None", "delete-then-rebind", "delete")
 OTHER = object()
-EXITS = ("return", "raise-before", "raise-after")
+EXITS = ("return", "raise-before", "raise-after", "raise-before-SystemExit", "raise-after-SystemExit", "raise-after-KeyboardInterrupt",
+         "raise-after-GeneratorExit", "raise-after-a-BaseException-subclass")
+
+
+class _Base(BaseException):
+    pass
+
+
+def _exit_exc(ext, default):
+    """The exception a scripted callee raises for exit kind `ext` ("raises at any point": whatever its class - the ones outside
+    Exception are what (sys.exit), an interrupt or a closed generator raise)."""
+    for nm, cls in (("SystemExit", SystemExit), ("KeyboardInterrupt", KeyboardInterrupt), ("GeneratorExit", GeneratorExit), ("a-BaseException-subclass", _Base)):
+        if ext.endswith(nm):
+            return cls("scripted")
+    return default("scripted")
+
+
+SCRIPTED = (ZeroDivisionError, KeyError, SystemExit, KeyboardInterrupt, GeneratorExit, _Base)
 
 
 def run(chk):
@@ -61,8 +78,8 @@ def run(chk):
 
             def callee(hytree, locals, **kw):
                 d = locals
-                if ext == "raise-before":
-                    raise ZeroDivisionError("scripted")
+                if ext.startswith("raise-before"):
+                    raise _exit_exc(ext, ZeroDivisionError)
                 if eff == "add-or-rebind":
                     d["hy"] = hy
                 elif eff == "rebind-to-another-object":
@@ -74,14 +91,14 @@ def run(chk):
                     d["hy"] = OTHER
                 elif eff == "delete":
                     d.pop("hy", None)
-                if ext == "raise-after":
-                    raise KeyError("scripted")
+                if ext.startswith("raise-after"):
+                    raise _exit_exc(ext, KeyError)
                 return "VALUE"
             hc.hy_eval = callee
             exc = val = None
             try:
                 val = hc.hy_eval_user(Integer(1), globals=glob, locals=loc, module=types.ModuleType("hv_c39"))
-            except (ZeroDivisionError, KeyError) as e:
+            except SCRIPTED as e:
                 exc = e
             name = f"restore/locals={lname}/globals={gmode}/callee={eff}/{ext}"
             n += 1
@@ -99,8 +116,8 @@ def run(chk):
 
                 def callee(hytree, locals, **kw):
                     assert locals is g
-                    if ext == "raise-before":
-                        raise ZeroDivisionError
+                    if ext.startswith("raise-before"):
+                        raise _exit_exc(ext, ZeroDivisionError)
                     if eff == "add-or-rebind":
                         g["hy"] = hy
                     elif eff == "rebind-to-another-object":
@@ -112,13 +129,13 @@ def run(chk):
                         g["hy"] = OTHER
                     elif eff == "delete":
                         g.pop("hy", None)
-                    if ext == "raise-after":
-                        raise KeyError
+                    if ext.startswith("raise-after"):
+                        raise _exit_exc(ext, KeyError)
                     return 1
                 hc.hy_eval = callee
                 try:
                     hc.hy_eval_user(Integer(1), globals=g, module=types.ModuleType("hv_c39"))
-                except (ZeroDivisionError, KeyError):
+                except SCRIPTED:
                     pass
                 chk.case(("g", gname, eff, ext))
                 chk.ob(f"restore/locals=None/globals={gname}/callee={eff}/{ext}", ("hy" in g) == had and (not had or g["hy"] is was),
@@ -165,7 +182,10 @@ def run(chk):
     # bounded end-to-end with the real compiler
     srcs = ["(do 1 2 3)", "(do (setv q 4) (+ q 1))", "(raise (ValueError \"x\"))", "(do (setv q 1) (raise (KeyError 1)))",
             "(undefined-macro-or-fn 1)", "(setv", "(do (import os) (del hy) 5)", "(do (setv hy 9) hy)",
-            "(do (import math :as hy) 1)", "(do (setv hy None) 1)", "(do (setv hy \"mine\") (raise (ValueError hy)))", "(defn hy [] 1)"]
+            "(do (import math :as hy) 1)", "(do (setv hy None) 1)", "(do (setv hy \"mine\") (raise (ValueError hy)))", "(defn hy [] 1)",
+            # exceptions outside Exception
+            "(do (import sys) (setv q 1) (sys.exit 3))", "(raise (KeyboardInterrupt))", "(do (setv q 1) (raise (GeneratorExit)) q)",
+            "(do (setv hy 3) (raise (SystemExit hy)))"]
     # the value of the last form, also when that form compiles to nothing (its value is None, not the value of the form before it)
     last_none = ["5 (do)", "(do 5 (do))", "(setv x 6) x (eval-and-compile)", "((fn [] 9 (do)))", "7 (eval-when-compile 1)", "8 (do (do))",
                  "1 2 (pragma :warn-on-core-shadow True)", "(when True 3 (do))", "4 (do) (do)"]
